@@ -68,6 +68,9 @@ public:
     virtual const ElemTemplateElement*
     startElement(StylesheetExecutionContext&    executionContext) const;
 
+    virtual void
+    endElement(StylesheetExecutionContext&      executionContext) const;
+
     virtual const ElemTemplateElement*
     getFirstChildElemToExecute(
             StylesheetExecutionContext& executionContext) const;
